@@ -250,8 +250,38 @@ def check(desc, rec, downstream=True, fortran=False, hang_s=20.0):
     from dagrt.codegen import PythonCodeGenerator
     try:
         with case_alarm(hang_s):
-            PythonCodeGenerator(class_name="M")(dag)
+            text = PythonCodeGenerator(class_name="M")(dag)
             rec.count("downstream_pygen_runs")
+            # dependency resolution in the generator: an assignment is emitted after the assignments it
+            # (transitively through any statement) depends on
+            import re
+            for pname, ph in desc["phases"].items():
+                m = re.search(r"def phase_%s\(self\):(.*?)(?=\n    def |\Z)" % re.escape(pname), text, re.S)
+                if not m:
+                    continue
+                body = m.group(1)
+                byid = {st["id"]: st for st in ph["stmts"]}
+                pos = {}
+                for st in ph["stmts"]:
+                    if st["kind"] == "assign" and "var" not in st:
+                        mm = re.search(r"\blocalx_%s = " % re.escape(st["id"]), body)
+                        if mm:
+                            pos[st["id"]] = mm.start()
+
+                def anc(x, seen):
+                    for d in byid[x]["deps"]:
+                        if d in byid and d not in seen:
+                            seen.add(d)
+                            anc(d, seen)
+                    return seen
+                for x in pos:
+                    for d in anc(x, set()):
+                        if d in pos:
+                            rec.count("downstream_pygen_emission_orders_checked")
+                            if pos[d] > pos[x]:
+                                rec.violation("downstream-pygen-emits-statement-before-its-dependency",
+                                              f"phase {pname}: [{x}] is emitted before [{d}], on which it depends", desc)
+                                return
     except CaseTimeout:
         rec.violation("downstream-pygen-hang", "Python generator hung on accepted method", desc)
         return
